@@ -383,7 +383,7 @@ class Pipeline(Suite):
 
 
 SUITES = [Pipeline()]
-TECHNIQUE = ("Lean 4 theorem by induction over operation lists: each topology-level operation model (sort, subtree, prune, re-root, geometric, round trip) maps a "
+TECHNIQUE = ("Lean 4 theorem by induction over operation lists: each topology-level operation model (sort, subtree, prune, re-root, geometric, round trip, and — C03Cat — cat_tree with an arbitrary second tree in both translate modes) maps a "
              "well-formed parent list to a well-formed one (sorted where documented), built from the theorems of C05/C06/C07 and the representation lemma; heap-level "
              "freshness from C09 + pipelines of the real operations with well-formedness, input hashes and np.shares_memory checked after every step: random "
              "pipelines plus every operation applied to the result of every operation (column dtypes / anything remembered on the tree object carry over), "
